@@ -12,7 +12,7 @@
    the hypothesis always holds when magnitudes and scale factor are rational.
    The finite theorems range over the regenerated unit table. *)
 From FendV Require Import Base.Prelude Units.Defs Units.Algebra Units.AlgebraProofs Units.Lookup
-     Units.Index Units.Legality Units.Table Units.TableProofs Units.Standards.
+     Units.Index Units.Legality Units.Table Units.TableProofs04 Units.Standards.
 From FendV Require Import Units.Generated.UnitTable.
 From Coq Require Import QArith.
 Close Scope Q_scope.
